@@ -1,0 +1,63 @@
+/*
+    Verification hooks, only compiled with the cargo feature `verif`.
+
+    Both hooks are thread local and inert unless armed on the calling thread:
+    - a virtual clock that replaces the wall clock in `utils::out_of_time`
+    - a sink that captures everything passed to `uci::send_to_gui`
+*/
+use std::cell::{Cell, RefCell};
+
+thread_local! {
+    // (number of times the clock has been consulted so far, index of the first consultation that reports "out of time")
+    static CLOCK: Cell<Option<(u64, u64)>> = Cell::new(None);
+    // (clock reading at the moment of emission, message)
+    static SINK: RefCell<Option<Vec<(u64, String)>>> = RefCell::new(None);
+}
+
+// Arm the virtual clock: the q-th consultation (counting from 0) returns q >= expiry
+pub fn arm_clock(expiry: u64) {
+    CLOCK.with(|c| c.set(Some((0, expiry))));
+}
+
+// Disarm the virtual clock, returns the number of consultations made while it was armed
+pub fn disarm_clock() -> u64 {
+    CLOCK.with(|c| c.replace(None).map(|x| x.0).unwrap_or(0))
+}
+
+// Number of clock consultations so far on this thread, 0 if not armed
+pub fn clock_reading() -> u64 {
+    CLOCK.with(|c| c.get().map(|x| x.0).unwrap_or(0))
+}
+
+// Called by out_of_time, None means the real clock decides
+pub fn clock_query() -> Option<bool> {
+    CLOCK.with(|c| match c.get() {
+        None => None,
+        Some((queries, expiry)) => {
+            c.set(Some((queries + 1, expiry)));
+            Some(queries >= expiry)
+        }
+    })
+}
+
+// Start capturing messages sent to the GUI on this thread
+pub fn arm_sink() {
+    SINK.with(|s| *s.borrow_mut() = Some(Vec::new()));
+}
+
+// Stop capturing, returns what was captured
+pub fn take_sink() -> Vec<(u64, String)> {
+    SINK.with(|s| s.borrow_mut().take().unwrap_or_default())
+}
+
+// Called by send_to_gui, true means the message was captured and must not be printed
+pub fn capture(message: &str) -> bool {
+    SINK.with(|s| {
+        if let Some(lines) = s.borrow_mut().as_mut() {
+            lines.push((clock_reading(), message.to_string()));
+            true
+        } else {
+            false
+        }
+    })
+}
